@@ -12,7 +12,7 @@ L.ensure_built()
 L.warm_cache()
 spec = {"id": "setupwarm", "family": "setup", "bp": {"ops": [
     {"k": "ctor", "c": "C_T0P__0__S", "lc": "request_scoped"}, {"k": "route", "c": "H0__PR_0_0__I"}]}}
-o = orchestrator.observe_specs([spec], f"{L.WORK}/e2e/setup")
+o = orchestrator.observe_specs([spec], f"{L.E2E_WORK}/setup")
 ok = o["build"].get("setupwarm", {}).get("build_ok") and o["run"].get("setupwarm", {}).get("responses")
 if not ok:
     L.machinery("e2e setup smoke run failed: " + str(o["gen"]["setupwarm"].get("stderr", ""))[-500:])
